@@ -281,6 +281,48 @@ def edit_header(rng, binary, kind):
         return None
 
 
+def rewrap_cases(rng, f, binary):
+    """(decryptors, binary): an auth block whose container is genuine - right key, 'B' marker, length byte, padding, CRC -
+    around a payload that is too short, too long or scrambled; only a reader holding the right key gets that far"""
+    import hashlib
+    import refaes
+    tl, off = header_tlvs(binary)
+    body = binary[off:]
+    blocks = f["blocks"].split(",")
+    encs = [] if f["encs"] == "-" else f["encs"].split(",")
+    out = []
+    for i, (b, (t, v)) in enumerate(zip(blocks, tl)):
+        if b.startswith("u"):
+            code = bytes.fromhex(b[1:].split(":")[0])
+            key, dec = hashlib.sha256(code).digest()[:16], f"S{code.hex()}"
+        elif b == "c":
+            e = next((x for x in encs if x[0] == "C"), None)
+            if e is None:
+                continue
+            key, dec = bytes.fromhex(e[1:].split(":")[0]), e
+        else:
+            continue
+        if len(v) % 16 or not v:
+            continue
+        fr = refaes.cbc_decrypt(key, bytes(16), v)
+        if fr[0:1] != b"B" or fr[1] < 2 or fr[1] > len(fr):
+            continue
+        ln = fr[1] - 2
+        payload = fr[len(fr) - 2 - ln:-2]
+        variants = [payload[:k] for k in sorted({0, 1, 9, 10, 11, 15, 16, 17, 25, 26, len(payload) - 1}) if 0 <= k < len(payload)]
+        variants += [payload + b"\x00", payload + g.rbytes(rng, 5), payload[::-1]]
+        for pv in rng.sample(variants, min(5, len(variants))):
+            z = 16 - ((len(pv) + 4) % 16)
+            fr2 = b"B" + bytes([len(pv) + 2]) + bytes(z) + pv + refaes.bitserial(pv).to_bytes(2, "big")
+            tl2 = list(tl)
+            tl2[i] = (t, refaes.cbc_encrypt(key, bytes(16), fr2))
+            try:
+                out.append((",".join(dict.fromkeys(encs + [dec])), build_header(tl2) + body))
+            except ValueError:
+                pass
+    return out
+
+
 def bec2_cases(rng, n):
     """(chk, decryptors, text)"""
     files, lines = [], []
@@ -313,6 +355,8 @@ def bec2_cases(rng, n):
             b = layout.Body([layout.Entry(desc, p, len(p))], off)
             b.relayout(sk)
             out.append(("1", sets[1], to_text(binary[:off] + b.ser())))
+        for decs, b in rewrap_cases(rng, f, binary):
+            out.append(("1", decs, to_text(b)))
         for kind in rng.sample(HEADER_EDITS, 6):
             b = edit_header(rng, binary, kind)
             if b is not None:
@@ -342,9 +386,43 @@ BF2_LINES = ["#>REBOOT", "#> REBOOT", "#>REBOOT ", "##CRC: 0x123456789", "##CRC:
              "##CRC: 0x", "##CRC: ١٢"]
 
 
+_src_words = None
+
+
+def src_words():
+    """identifier-like string literals of bec2format/bf3file.py (instruction names, internal markers such as the "load"
+    tag the parser uses for firmware data, dictionary keys): each becomes a `##word: v`, `#>word` and `#>word K=V` line, so
+    that a text line can collide with any name the importer gives a meaning to"""
+    global _src_words
+    if _src_words is None:
+        import ast
+        import os
+        import re
+        from core import REPO
+        words = set()
+        try:
+            tree = ast.parse(open(os.path.join(REPO, "bec2format", "bf3file.py")).read())
+            for node in ast.walk(tree):
+                if isinstance(node, ast.Constant) and isinstance(node.value, str) and re.fullmatch(r"[A-Za-z_][A-Za-z0-9_]{0,19}", node.value):
+                    words.add(node.value)
+        except (OSError, SyntaxError):
+            pass
+        _src_words = sorted(words) or ["load"]
+    return _src_words
+
+
+def word_line(rng):
+    w = rng.choice(src_words())
+    return rng.choice([f"##{w}: {rng.choice(['abc', '1', '', '0x10', '01 01 00 9B'])}", f"##{w}:", f"#>{w}", f"#>{w} FILTER=01 01 00 9B",
+                       f"#>{w} PROTOCOL=*", f"#>{w} VERSIONDESC=*", f"#>{w} X=1"])
+
+
 def bf2_cases(rng, n):
     """(enforce_marker, text)"""
     out = []
+    for w in src_words():
+        for form in (f"##{w}: abc", f"##{w}:", f"#>{w}", f"#>{w} X=1"):
+            out.append((rng.choice("10"), form + "\n"))
     for _ in range(n):
         text, _ = gen_bf2.gen_file(rng, big=rng.choice([300, 300, 3000]), marker=rng.random() < 0.8,
                                    debug=rng.random() < 0.05, defect=rng.random() < 0.3)
@@ -356,7 +434,7 @@ def bf2_cases(rng, n):
         for _ in range(4):
             l2 = list(ls)
             for _ in range(rng.choice([1, 1, 2, 3])):
-                l2.insert(rng.randrange(len(l2) + 1), rng.choice(BF2_LINES))
+                l2.insert(rng.randrange(len(l2) + 1), rng.choice(BF2_LINES) if rng.random() < 0.7 else word_line(rng))
             out.append((enf, "\n".join(l2)))
         # data line edits: tag type, length byte, index, address
         dl = [i for i, l in enumerate(ls) if l.startswith(":") and len(l) > 9]
